@@ -4,10 +4,13 @@ CLAIM = ("Termination and work bounds as solver queries: explicit step budgets (
 ASSUMPTIONS = ["source read contract: returns <= requested, 0 at end of data, -1 on error"]
 from C16 import SKIP, it
 from hdr_common import l1ext, walk, extend
-from rsm_common import pos
+from rsm_common import pos, rsm
 HARNESSES = [
     dict(name="skip.fallback", src="C13/skip.c", unwind=9, units=["lib/lha_input_stream.c:lha_input_stream_skip"], timeout=300,
          bounds="skip of 0..70 bytes over a stream of 0..100 bytes the first 3 reads arbitrarily short; budget ceil(bytes/32)+4 source reads",
          stubs=["src_read: symbolic source, symbolic short reads, 0 at end"], unwind_is_property=True),
-    SKIP, it(len0=0, ret=24, timeout=120), it(len0=12, ret=1, timeout=120), it(len0=3, ret=0, timeout=120), l1ext(13), walk(16), extend(3), pos(3),
+    dict(name="sizes.table", src="C13/sizes.c", unwind=16, unwindset={"strcmp.0": 7, "memcmp.0": 7}, timeout=300, mem_gb=4,
+         extra_srcs=["lib/crc16.c", "lib/null_decoder.c", "lib/lz5_decoder.c", "lib/lzs_decoder.c", "lib/lh1_decoder.c", "lib/lh5_decoder.c", "lib/lh6_decoder.c", "lib/lh7_decoder.c", "lib/lhx_decoder.c", "lib/lk7_decoder.c", "lib/pm1_decoder.c", "lib/pm2_decoder.c"],
+         units=["lib/lha_decoder.c:decoders[],lha_decoder_for_name", "the 12 decoder type objects"], bounds="concrete table; one symbolic 5-byte name"),
+    SKIP, it(len0=0, ret=24, timeout=120), it(len0=12, ret=1, timeout=120), it(len0=3, ret=0, timeout=120), l1ext(13), walk(16), extend(3), pos(3), rsm(2, 4, timeout=600),
 ]
